@@ -274,6 +274,19 @@ class Evaluator:
                 raise NotEvaluable(f'call of the variable {name}')
             if name in BUILTINS:
                 return BUILTINS[name](args)
+            from . import libref
+            if name in libref.REFERENCE:
+                # the reference list / dict / str models of the library (shared with C15.R)
+                if any(isinstance(a, Regex) or callable(a) for a in args):
+                    raise NotEvaluable(f'builtin {name} applied to a regex / function value')
+                kind, v = libref.reference_call(name, args)
+                if isinstance(v, tuple) and v and v[0] == 'either':
+                    v = v[1]
+                if isinstance(v, tuple) and v and v[0] in ('regex-literal', 'percent'):
+                    raise NotEvaluable(f'builtin {name} has no value-level reference model')
+                if isinstance(v, int) and not isinstance(v, bool):
+                    v = float(v)
+                return v
             raise NotEvaluable(f'builtin {name} has no reference model here')
         raise NotEvaluable(f'expression kind {k}')
 
